@@ -506,7 +506,8 @@ func formatString(w io.Writer, s String, opt OutputOptions) error {
 	pretty := opt.HasAny(OptPretty)
 	if wenc, ok := w.(*posWriter); ok {
 		if wenc.enc != nil {
-			enc, err := wenc.enc.EncryptBytes(wenc.ref, l)
+			// EncryptBytes may work in place; never touch the caller's string.
+			enc, err := wenc.enc.EncryptBytes(wenc.ref, bytes.Clone(l))
 			if err != nil {
 				return err
 			}
